@@ -1317,7 +1317,8 @@ class Malformed(Family):
             if kind == "union-badmap" and n:
                 mapping[rng.randrange(n)] = rng.choice([n, n + 5, -2, -7])
             if kind == "union-maplen":
-                mapping = mapping + [NULL] if rng.random() < 0.5 else mapping[:-1]
+                # with no nodes the only wrong length is a longer one ([][:-1] is still right)
+                mapping = mapping + [NULL] if (rng.random() < 0.5 or not mapping) else mapping[:-1]
             yield {"desc": d, "kind": kind, "nodes": nodes, "mapping": mapping,
                    "ru": rng.random() < 0.5, "rp": rng.random() < 0.5, "check": rng.random() < 0.5}
 
